@@ -41,7 +41,7 @@ def is2x(version: str) -> bool:
 
 # ---------------------------------------------------------------------------------------
 # C05: protocol selection
-_RELEASE = re.compile(r"^(0|[1-9][0-9]*)\.(0|[1-9][0-9]*)(\.(0|[1-9][0-9]*)){0,2}$")
+_RELEASE = re.compile(r"^(0|[1-9][0-9]{0,17})\.(0|[1-9][0-9]{0,17})(\.(0|[1-9][0-9]{0,17})){0,2}$")
 
 
 def release_major_minor(text: str) -> tuple[int, int] | None:
